@@ -15,6 +15,7 @@ import OrasModel.Driver.Sc
 import OrasModel.Driver.Rf
 import OrasModel.Driver.Rl
 import OrasModel.Driver.Tf
+import OrasModel.Driver.Cm
 import OrasModel.Driver.Pg
 import OrasModel.Driver.Rm
 import OrasModel.Driver.S
@@ -59,6 +60,9 @@ def handle (st : DState) (line : String) : DState × String :=
       | some (m, s) => (st, s!"m={m} s={s}")
       | none => (st, "bad-op"))
   | "sc" :: rest => (match Sc.step rest with
+      | some (m, s) => (st, s!"m={m} s={s}")
+      | none => (st, "bad-op"))
+  | "cm" :: rest => (match Cm.step rest with
       | some (m, s) => (st, s!"m={m} s={s}")
       | none => (st, "bad-op"))
   | "tf" :: rest => (match Tf.step rest with
